@@ -3,7 +3,7 @@
    (DefaultWorker._alloc/_dealloc/_request_cb/_result_cb, Master._result_cb/
    _request_cb/_submit_tasks, Worker._dispatch_func etc.), oracle: RP.Raptor.Oracle. *)
 From Coq Require Import ZArith List Bool Permutation.
-From RP Require Import Raptor.Model Raptor.Oracle Raptor.Proofs Raptor.Race Raptor.RaceOracle Raptor.RaceProofs.
+From RP Require Import Raptor.Model Raptor.Oracle Raptor.Proofs Raptor.Race Raptor.RaceOracle Raptor.RaceProofs Raptor.Lin Raptor.LinProofs.
 Import ListNotations.
 Open Scope Z_scope.
 
@@ -195,6 +195,21 @@ Theorem C20_dispatch_protocol_watcher_survives :
     alive = true /\ returned_uids evs = [1; 2] /\ w_cb st = [false; false] /\ w_pool st = [].
 Proof. exact race_then_watcher. Qed.
 Print Assumptions C20_dispatch_protocol_watcher_survives.
+
+(* Two-thread cases (request intake / _alloc against _result_cb / _dealloc,
+   against another intake, against the completion of the request being
+   started) are judged against the sequential model: the observed outcome must
+   be `outcome_of` the model run in one of the two orders.  For EVERY operation
+   sequence within the demand bound that sequential outcome satisfies the
+   clauses used on the observation: nothing held twice and all within the
+   worker, the maps mark exactly what is held, idle means all free. *)
+Theorem C20_sequential_outcome_satisfies_clauses :
+  forall (nc ng : nat) (ops : list wop),
+    Forall (op_in_bound nc ng) ops ->
+    let o := outcome_of (wrun (winit nc ng) ops) in
+    lin_disjoint nc ng o = true /\ lin_accounting nc ng o = true /\ lin_quiescent o = true.
+Proof. exact sequential_outcome_ok. Qed.
+Print Assumptions C20_sequential_outcome_satisfies_clauses.
 
 (* The agent scheduler's raptor forwarding loses and duplicates nothing: for
    every history of incoming batches, queue registrations / unregistrations
